@@ -108,10 +108,11 @@ def rainfall_partition(
             xx = 0
             wrel = np.zeros(comp_sto)
             for ii in range(comp_sto):
-                if prof.dzsum[ii] > Soil_zCN:
-                    prof.dzsum[ii] = Soil_zCN
+                dzsum_ii = prof.dzsum[ii]
+                if dzsum_ii > Soil_zCN:
+                    dzsum_ii = Soil_zCN
 
-                wx = 1.016 * (1 - np.exp(-4.16 * (prof.dzsum[ii] / Soil_zCN)))
+                wx = 1.016 * (1 - np.exp(-4.16 * (dzsum_ii / Soil_zCN)))
                 wrel[ii] = wx - xx
                 if wrel[ii] < 0:
                     wrel[ii] = 0
